@@ -49,7 +49,10 @@ Inductive prog : Type :=
 | PSkip                                         (* ;                                          *)
 | PTick (n : nat)                               (* an observable statement                     *)
 | PSeq (p q : prog)                             (* p; q                                        *)
-| PThrow (o m : nat)                            (* throw(X_o, "m%i", m)  /  throw(X_o, "") for m = 0 *)
+| PThrow (o m : nat) (fmt : prog)               (* throw(X_o, "m%i", m)  /  throw(X_o, "") for m = 0, when fmt = PSkip;
+                                                   in general throw(X_o, "%$m%i", a, m) / throw(X_o, "%$", a) where
+                                                   showing the message argument a runs the program fmt (a Show
+                                                   method may contain complete try/catch blocks, and may throw) *)
 | PTry (body : prog) (filters : list nat) (handler : prog)
                                                 (* try { body } catch (e in filters) { handler } *)
 | PCall (p : prog).                             (* f(); where the body of f is p — dynamic nesting.
@@ -91,11 +94,17 @@ Inductive mout : Type :=
 Section Machine.
 Variable max_depth : nat.         (* EXCEPTION_MAX_DEPTH *)
 Variable clr : bool.              (* clear_active_on_catch, see the header *)
+Variable oaf : bool.              (* throw_records_obj_after_format: exception_throw formats the message
+                                     (which may run try blocks and throws of its own, through the Show
+                                     methods of the arguments) BEFORE it stores e->obj = obj.  The pinned
+                                     code stored the object first: a throw handled while the message was
+                                     being formatted replaced it (third repaired defect). *)
+Variable tko : bool.              (* try_keeps_obj: exception_try does not assign e->obj *)
 
 (* void exception_try(jmp_buf* env): None = overflow abort *)
 Definition exception_try (id : nat) (st : mstate) : option mstate :=
   if depth st =? max_depth then None
-  else Some (MS (obj st) (msg st) (id :: bufs st) false).
+  else Some (MS (if tko then obj st else None) (msg st) (id :: bufs st) false).
 
 (* void exception_try_fail(void) *)
 Definition exception_try_fail (st : mstate) : mstate :=
@@ -122,10 +131,8 @@ Definition jump_or_die (st : mstate) : mout :=
    does not speak about messages, the model follows the code. *)
 Definition set_msg (m old : nat) : nat := if m =? 0 then old else m.
 
-(* var exception_throw(var obj, const char* fmt, var args) *)
-Definition exception_throw (k m : nat) (st : mstate) : mstate * mout :=
-  let st' := MS (Some k) (set_msg m (msg st)) (bufs st) (active st) in
-  (st', jump_or_die st').
+(* var exception_throw(var obj, const char* fmt, var args): spelled out in the PThrow case of [mrun],
+   because formatting the message can run program code *)
 
 (* "If no Arguments catch all", otherwise eq(get(args, $I(i)), e->obj) for some i < len(args).
    (The pinned code walked the filter with foreach; see tuple_next / foreach_matches below for
@@ -169,7 +176,18 @@ Fixpoint mrun (p : prog) (st : mstate) : list event * mout * mstate :=
       | MNormal => let '(t2, r2, s2) := mrun q s1 in (t1 ++ t2, r2, s2)
       | _ => (t1, r1, s1)
       end
-  | PThrow k m => let '(s, r) := exception_throw k m st in ([], r, s)
+  | PThrow o m f =>
+      (* exception_throw: [e->obj = obj;] print_to_with(e->msg, 0, fmt, args); [e->obj = obj;] jump or die.
+         Formatting shows the arguments first (the harness puts the %$ argument in front, so the own
+         message then overwrites from position 0 whatever a nested throw left: set_msg). *)
+      let st0 := if oaf then st else MS (Some o) (msg st) (bufs st) (active st) in
+      let '(t1, r1, s1) := mrun f st0 in
+      match r1 with
+      | MNormal =>
+          let s2 := MS (if oaf then Some o else obj s1) (set_msg m (msg s1)) (bufs s1) (active s1) in
+          (t1, jump_or_die s2, s2)
+      | _ => (t1, r1, s1)              (* an exception escaped from the Show method: this throw never happens *)
+      end
   | PCall p => mrun p st
   | PTry b fs h =>
       let id := depth st in                              (* jmp_buf __env; *)
@@ -222,7 +240,12 @@ Fixpoint ref_run (d : nat) (c : nat) (p : prog) : list event * rres * nat :=
       | RNormal => let '(t2, r2, c2) := ref_run d c1 q in (t1 ++ t2, r2, c2)
       | RRaised k m => (t1, RRaised k m, c1)
       end
-  | PThrow k m => ([], RRaised k (set_msg m c), set_msg m c)
+  | PThrow o m f =>
+      let '(t1, r1, c1) := ref_run d c f in                 (* the message arguments are shown first *)
+      match r1 with
+      | RNormal => (t1, RRaised o (set_msg m c1), set_msg m c1)
+      | RRaised _ _ => (t1, r1, c1)
+      end
   | PCall p => ref_run d c p
   | PTry b fs h =>
       let '(t1, r1, c1) := ref_run (S d) c b in
@@ -238,7 +261,8 @@ Fixpoint ref_run (d : nat) (c : nat) (p : prog) : list event * rres * nat :=
 (* number of try bodies nested inside each other (lexically or through calls) *)
 Fixpoint nesting (p : prog) : nat :=
   match p with
-  | PSkip | PTick _ | PThrow _ _ => 0
+  | PSkip | PTick _ => 0
+  | PThrow _ _ f => nesting f
   | PSeq p q => Nat.max (nesting p) (nesting q)
   | PCall p => nesting p
   | PTry b _ h => Nat.max (S (nesting b)) (nesting h)
@@ -246,7 +270,8 @@ Fixpoint nesting (p : prog) : nat :=
 
 Fixpoint size (p : prog) : nat :=
   match p with
-  | PSkip | PTick _ | PThrow _ _ => 1
+  | PSkip | PTick _ => 1
+  | PThrow _ _ f => S (size f)
   | PSeq p q => S (size p + size q)
   | PCall p => S (size p)
   | PTry b _ h => S (size b + size h)
@@ -297,7 +322,12 @@ Inductive eval : nat -> nat -> prog -> list event -> rres -> nat -> Prop :=
     eval d c p t1 RNormal c1 -> eval d c1 q t2 r c2 -> eval d c (PSeq p q) (t1 ++ t2) r c2
 | EvSeqRaised : forall d c p q t1 k m c1,
     eval d c p t1 (RRaised k m) c1 -> eval d c (PSeq p q) t1 (RRaised k m) c1
-| EvThrow : forall d c k m, eval d c (PThrow k m) [] (RRaised k (set_msg m c)) (set_msg m c)
+| EvThrow : forall d c o m f t1 c1,             (* the arguments are shown, then o is raised *)
+    eval d c f t1 RNormal c1 ->
+    eval d c (PThrow o m f) t1 (RRaised o (set_msg m c1)) (set_msg m c1)
+| EvThrowEscaped : forall d c o m f t1 k m' c1, (* showing an argument raised: that exception goes on instead *)
+    eval d c f t1 (RRaised k m') c1 ->
+    eval d c (PThrow o m f) t1 (RRaised k m') c1
 | EvCall : forall d c p t r c', eval d c p t r c' -> eval d c (PCall p) t r c'
 | EvTryNormal : forall d c b fs h t c1,        (* nothing reaches this block: the handler stays out *)
     eval (S d) c b t RNormal c1 -> eval d c (PTry b fs h) t RNormal c1
@@ -339,7 +369,7 @@ Definition expected_src_try_end : string :=
 Definition expected_src_try_fail : string :=
   "{ struct Exception * e = current ( Exception ) ; e -> active = true ; }".
 Definition expected_src_throw : string :=
-  "{ struct Exception * e = current ( Exception ) ; e -> obj = obj ; print_to_with ( e -> msg , 0 , fmt , args ) ; if ( Exception_Len ( e ) >= 1 ) { longjmp ( * Exception_Buffer ( e ) , 1 ) ; } else { Exception_Error ( e ) ; } return NULL ; }".
+  "{ struct Exception * e = current ( Exception ) ; print_to_with ( e -> msg , 0 , fmt , args ) ; if ( Exception_Len ( e ) >= 1 ) { longjmp ( * Exception_Buffer ( e ) , 1 ) ; } else { Exception_Error ( e ) ; } return NULL ; }".
 Definition expected_src_catch : string :=
   "{ struct Exception * e = current ( Exception ) ; if ( not e -> active ) { return NULL ; } if ( len ( args ) is 0 ) { return e -> obj ; } size_t nargs = len ( args ) ; for ( size_t i = 0 ; i < nargs ; i ++ ) { if ( eq ( get ( args , $ I ( i ) ) , e -> obj ) ) { return e -> obj ; } } if ( e -> depth >= 1 ) { longjmp ( * Exception_Buffer ( e ) , 1 ) ; } else { Exception_Error ( e ) ; } return NULL ; }".
 Definition expected_src_buffer : string :=
@@ -348,3 +378,5 @@ Definition expected_src_len : string :=
   "{ struct Exception * e = self ; return e -> depth ; }".
 Definition expected_src_error : string :=
   "{ print_to ( $ ( File , stderr ) , 0 , ""\n"" ) ; print_to ( $ ( File , stderr ) , 0 , ""!!\t\n"" ) ; print_to ( $ ( File , stderr ) , 0 , ""!!\tUncaught %$\n"" , e -> obj ) ; print_to ( $ ( File , stderr ) , 0 , ""!!\t\n"" ) ; print_to ( $ ( File , stderr ) , 0 , ""!!\t\t %s\n"" , e -> msg ) ; print_to ( $ ( File , stderr ) , 0 , ""!!\t\n"" ) ; Exception_Backtrace ( ) ; exit ( EXIT_FAILURE ) ; }".
+Definition expected_src_signal : string :=
+  "{ switch ( sig ) { case SIGABRT : throw ( ProgramAbortedError , ""Program Aborted"" ) ; case SIGFPE : throw ( DivisionByZeroError , ""Division by Zero"" ) ; case SIGILL : throw ( IllegalInstructionError , ""Illegal Instruction"" ) ; case SIGINT : throw ( ProgramInterruptedError , ""Program Interrupted"" ) ; case SIGSEGV : throw ( SegmentationError , ""Segmentation fault"" ) ; case SIGTERM : throw ( ProgramTerminationError , ""Program Terminated"" ) ; } }".
